@@ -13,6 +13,7 @@ import UtapModel.Lemmas.C09Pratt
 import UtapModel.Lemmas.C09Misc
 import UtapModel.Model.C09Ops
 import UtapModel.Model.C09Scope
+import UtapModel.Model.C09GenTbl
 import UtapModel.Gen.C09Tables
 namespace UtapModel.C09.Props
 open UtapModel.C09
@@ -21,11 +22,7 @@ open UtapModel.C09
 def genCfg (mask : Nat) (isType : Nat → List Ch → Bool) : Cfg :=
   { rules := Gen.rules, kws := Gen.keywordTable, maxLen := Gen.maxLen, mask := mask,
     bitOld := Gen.bitOLD, bitProperty := Gen.bitPROPERTY, bitProb := Gen.bitPROB,
-    tConst := Gen.T_CONST, tOldConst := Gen.T_OLDCONST, isType := isType }
-
-def genTables : Tables :=
-  { levels := Gen.precLevels, binary := Gen.binaryProds, unary := Gen.unaryProds, assign := Gen.assignProds,
-    nonTypeId := Gen.nonTypeId, kindNames := Gen.kindNames, tokNames := Gen.tokNames }
+    tConst := Gen.T_CONST, tOldConst := Gen.T_OLDCONST, isType := isType, expectStops := Gen.expectStopsBeforeClose }
 
 /-- `NEW | GUIDING`: the syntax of every text block of a model parsed with `newxta = true` -/
 def maskNew : Nat := Gen.bitNEW ||| Gen.bitGUIDING
@@ -54,6 +51,30 @@ theorem C09_trivia (cfg : Cfg) (hwf : RulesWF cfg.rules = true) (hnp : NonProper
     lex cfg (sepText sep0 ++ renderItems items) = lex cfg (sepText sep0' ++ renderItems items') := by
   rw [lex_text cfg hwf hnp sep0 items h0 h, lex_text cfg hwf hnp sep0' items' h0' h', tokensOf_congr cfg items items' 0 hsame]
 
+/-- **Trivia in any syntax, queries included** (in PROPERTY syntax a newline is a token, so it is no trivia there):
+    the same statement without the `NonProperty` assumption for separators that contain no run of newlines. -/
+theorem C09_trivia_query (cfg : Cfg) (hwf : RulesWF cfg.rules = true)
+    (sep0 sep0' : List Triv) (items items' : List Item)
+    (hsame : items.map (fun i => (i.w, i.r)) = items'.map (fun i => (i.w, i.r)))
+    (hnl : noNewlines sep0 items = true) (hnl' : noNewlines sep0' items' = true)
+    (h0 : sepOK sep0 (renderItems items) = true) (h : Renderable cfg items = true)
+    (h0' : sepOK sep0' (renderItems items') = true) (h' : Renderable cfg items' = true) :
+    lex cfg (sepText sep0 ++ renderItems items) = lex cfg (sepText sep0' ++ renderItems items') := by
+  rw [lex_text_nonl cfg hwf sep0 items hnl h0 h, lex_text_nonl cfg hwf sep0' items' hnl' h0' h',
+      tokensOf_congr cfg items items' 0 hsame]
+
+/-- satisfiable in PROPERTY syntax: the query `E<> sup>1` and `E<> /* c */ sup > 1` (where `sup` is the keyword token
+    that `NonTypeId` re-admits as an identifier) -/
+example :
+    let cfg := genCfg Gen.bitPROPERTY (fun _ _ => false)
+    let ef : Item := ⟨[69, 60, 62], .lit [69, 60, 62] Gen.T_EF, [.blanks 32 []]⟩
+    let a : List Item := [ef, ⟨[115, 117, 112], .ident, []⟩, ⟨[62], .lit [62] Gen.T_GT, []⟩, ⟨[49], .num, []⟩]
+    let b : List Item := [{ ef with sep := [.blanks 32 [], .block [32, 99, 32], .blanks 32 []] },
+                          ⟨[115, 117, 112], .ident, [.blanks 32 []]⟩, ⟨[62], .lit [62] Gen.T_GT, [.blanks 32 []]⟩, ⟨[49], .num, []⟩]
+    Renderable cfg a = true ∧ Renderable cfg b = true ∧ noNewlines [] b = true ∧
+    lex cfg (renderItems b) = [.lit Gen.T_EF, .lit Gen.T_SUP, .lit Gen.T_GT, .nat 1] := by
+  decide +kernel
+
 /-- the same for the lexer of the current source tree (model syntax) -/
 theorem C09_trivia_utap (isType : Nat → List Ch → Bool) (sep0 sep0' : List Triv) (items items' : List Item)
     (hsame : items.map (fun i => (i.w, i.r)) = items'.map (fun i => (i.w, i.r)))
@@ -80,13 +101,20 @@ example :
 /-- `/* EXPECT:k*/` violates `bodyOK` … -/
 theorem C09_expect_not_bodyOK : bodyOK [32, 69, 88, 80, 69, 67, 84, 58, 107] = false := by decide
 
+def notExpect : Tok → Bool
+  | .expect _ => false
+  | _ => true
+
 /-- … and the negation of the property on the witness: replacing the comment text `note` by `EXPECT:k` (no blank before
-    the closing `*/`) changes the token stream — the rule `"EXPECT:"[^\t \n]*` of the <comment> state swallows the `*/`. -/
+    the closing `*/`) changes the token stream — the rule `"EXPECT:"[^\t \n]*` of the <comment> state swallows the `*/`.
+    (`.expect` is the `handle_expect` callback, not a token.)  Stated against the generated flag: the token streams agree
+    exactly when the source tree carries the repaired rule that stops before `*/`. -/
 theorem C09_witness_expect :
     let cfg := genCfg maskNew (fun _ _ => false)
     -- "/*note*/ y"  vs  "/*EXPECT:k*/ y"
     lex cfg [47, 42, 110, 111, 116, 101, 42, 47, 32, 121] = [.id [121]] ∧
-    lex cfg [47, 42, 69, 88, 80, 69, 67, 84, 58, 107, 42, 47, 32, 121] = [.expect [107, 42, 47], .commentNotClosed] := by
+    (decide ((lex cfg [47, 42, 69, 88, 80, 69, 67, 84, 58, 107, 42, 47, 32, 121]).filter notExpect = [.id [121]]))
+      = Gen.expectStopsBeforeClose := by
   decide +kernel
 
 /-! ## 2. renaming -/
@@ -108,6 +136,22 @@ theorem C09_rename_lex (cfg : Cfg) (hwf : RulesWF cfg.rules = true) (hnp : NonPr
       (lex cfg (sepText sep0 ++ renderItems items)).map (renTok ρ) := by
   rw [lex_text cfg hwf hnp sep0 items h0 h,
       lex_text { cfg with isType := isType' } hwf hnp sep0 _ h0' h',
+      tokensOf_rename cfg isType' ρ htype items 0 hρ]
+
+/-- the same in any syntax (queries included) for texts whose separators contain no run of newlines -/
+theorem C09_rename_lex_query (cfg : Cfg) (hwf : RulesWF cfg.rules = true)
+    (isType' : Nat → List Ch → Bool) (ρ : List Ch → List Ch) (sep0 : List Triv) (items : List Item)
+    (htype : ∀ n w, isType' n (ρ w) = cfg.isType n w)
+    (hρ : ∀ it ∈ items, isUserId cfg it = true →
+        kwTok cfg (ρ it.w) = none ∧ (ρ it.w).length < cfg.maxLen ∧ it.w.length < cfg.maxLen)
+    (hnl : noNewlines sep0 items = true) (hnl' : noNewlines sep0 (renItems cfg ρ items) = true)
+    (h0 : sepOK sep0 (renderItems items) = true) (h : Renderable cfg items = true)
+    (h0' : sepOK sep0 (renderItems (renItems cfg ρ items)) = true)
+    (h' : Renderable { cfg with isType := isType' } (renItems cfg ρ items) = true) :
+    lex { cfg with isType := isType' } (sepText sep0 ++ renderItems (renItems cfg ρ items)) =
+      (lex cfg (sepText sep0 ++ renderItems items)).map (renTok ρ) := by
+  rw [lex_text_nonl cfg hwf sep0 items hnl h0 h,
+      lex_text_nonl { cfg with isType := isType' } hwf sep0 _ hnl' h0' h',
       tokensOf_rename cfg isType' ρ htype items 0 hρ]
 
 /-- **The range of the renaming.**  A text of the shape `{alpha}{idchr}*` that is not the text of a literal rule of
@@ -159,6 +203,23 @@ theorem C09_softid_roundtrip :
     ∀ p ∈ Gen.nonTypeId, ∀ s, p.2 = some s →
       (lex (genCfg maskNew (fun _ _ => false)) s).map identView = [some s] ∧
       (lex (genCfg Gen.bitPROPERTY (fun _ _ => false)) s).map identView = [some s] := by
+  decide +kernel
+
+/-- **Exception set in PROPERTY syntax (computed)**: the spellings `NonTypeId` re-admits that are keywords of a query —
+    usable there as plain identifiers (`C09_softid_roundtrip`) but never as type names: sup inf bounds simulation. -/
+def queryExceptionNames : List (List Ch) :=
+  (Gen.nonTypeId.filterMap (·.2)).filter fun s => (kwTok (genCfg Gen.bitPROPERTY (fun _ _ => false)) s).isSome
+
+theorem C09_query_exception_names :
+    queryExceptionNames = [[115, 117, 112], [105, 110, 102], [98, 111, 117, 110, 100, 115],
+                           [115, 105, 109, 117, 108, 97, 116, 105, 111, 110]] := by decide +kernel
+
+/-- negation on the witnesses (`rename:query-typedef-named-*`): in a query, with a symbol table in which every name is
+    a type, `idx` is a T_TYPENAME but neither the soft keywords nor the one-letter tokens are -/
+theorem C09_witness_query_typedef_named :
+    let cfg := genCfg Gen.bitPROPERTY (fun _ _ => true)
+    lex cfg [105, 100, 120] = [.typename [105, 100, 120]] ∧
+    ∀ x ∈ queryExceptionNames ++ exceptionNames, lex cfg x ≠ [.typename x] := by
   decide +kernel
 
 /-! ### renaming, scope half -/
@@ -251,8 +312,9 @@ open Pratt in
 /-- **Parentheses.**  Let `t` be an expression tree that is well-formed for a precedence table (i.e. it is the tree the
     table assigns to its own token string), and `t'` the same tree with ANY number of additional parenthesis nodes
     around ANY sub-expressions.  Then the precedence-climbing parser yields the same callback trace `val t` for both
-    token strings.  (Scope: atoms, binary operators of a `%left/%right` table, parentheses.  Prefix / postfix operators,
-    `?:`, calls, indexing are covered for parentheses only by the metamorphic runs on the real library.) -/
+    token strings.  (Scope: atoms, prefix operators with a `%prec` level, binary operators of a `%left/%right` table,
+    parentheses.  Postfix operators, `?:`, calls, indexing and quantifiers are covered for parentheses only by the
+    metamorphic runs on the real library and the trace correspondence of the larger `C09Ops` model.) -/
 theorem C09_paren (T : Tbl) (hT : T.Consistent) (t t' : PExpr) (hw : WF T 0 t) (hx : ParenExt t t') :
     ∃ f, ∀ g, f ≤ g → Pratt.parseE T g 0 (toks t') = some (val t, []) ∧ Pratt.parseE T g 0 (toks t) = some (val t, []) := by
   obtain ⟨f1, h1⟩ := roundtrip T hT t hw
@@ -261,23 +323,21 @@ theorem C09_paren (T : Tbl) (hT : T.Consistent) (t t' : PExpr) (hw : WF T 0 t) (
   rw [← parenExt_val hx]
   exact h2 g (by omega)
 
-/-- the table of the current parser.y as a `Pratt.Tbl`: level = index of the `%left/%right` line, associativity = that line's -/
-def genTbl : Pratt.Tbl :=
-  { bp := fun o => ((levelOf Gen.precLevels o).map (·.1)).getD 0,
-    rassoc := fun o =>
-      match Gen.precLevels[((levelOf Gen.precLevels o).map (·.1)).getD 0 - 1]? with
-      | some (.right, _) => true
-      | _ => false }
-
+/- `genTbl` (Model/C09GenTbl.lean): the table of the current parser.y as a `Pratt.Tbl` — level = index of the
+   `%left/%right` line, associativity = that line's. -/
 theorem genTbl_consistent : genTbl.Consistent := by
-  intro o o' h
-  simp only [genTbl] at h ⊢
-  rw [h]
+  constructor
+  · intro o o' h
+    simp only [genTbl] at h ⊢
+    rw [h]
+  · intro o p h
+    simp only [genTbl] at h ⊢
+    rw [h]
 
 /-- `genTbl.rassoc` is the associativity bison uses for every token of every precedence line -/
 theorem genTbl_faithful :
     ∀ la ∈ Gen.precLevels, ∀ t ∈ la.2, levelOf Gen.precLevels t = some (genTbl.bp t, la.1) ∧
-      genTbl.rassoc t = (la.1 == .right) := by
+      genTbl.rassoc t = (la.1 == .right) ∧ genTbl.prassoc t = true ∧ levelNo Gen.UOPERATOR = 21 := by
   decide +kernel
 
 /-- the production `'(' Expression ')'` fires no callback (the translator refuses any action there) -/
